@@ -41,6 +41,17 @@ Fixpoint never_normal (t : stmt) : bool :=
   | _ => false
   end.
 
+(* the same relative to a plan: a nested statement the plan skips does not end its block *)
+Fixpoint nn_p (p : plan) (t : stmt) : bool :=
+  match t with
+  | SRet _ _ | SBreak _ | SNext _ => true
+  | SIf _ _ th (Some el) =>
+      existsb (fun x => nn_p p x && negb (in_plan_stmt p (stmt_sid x))) th &&
+      existsb (fun x => nn_p p x && negb (in_plan_stmt p (stmt_sid x))) el
+  | SBlock _ b => existsb (fun x => nn_p p x && negb (in_plan_stmt p (stmt_sid x))) b
+  | _ => false
+  end.
+
 Definition oid (o : option Z) : list Z := match o with Some i => [i] | None => [] end.
 
 (* ids of the statements in live positions: not after a never-normal statement of their
@@ -219,7 +230,7 @@ Fixpoint stmt_ok (c : pcfg) (t : stmt) {struct t} : bool :=
               else if in_plan_stmt (c_p1 c) (stmt_sid x) then pruned_ok c x
               else stmt_ok c x
             else true)
-        && blk (live && negb (never_normal x && negb (in_plan_stmt (c_p2 c) (stmt_sid x)))) r
+        && blk (live && negb (nn_p (c_p2 c) x && negb (in_plan_stmt (c_p2 c) (stmt_sid x)))) r
     end in
   match t with
   | SFun _ _ ps body fid ls _ =>
@@ -246,7 +257,7 @@ Definition item_ok (c : pcfg) (live : bool) (x : stmt) : bool :=
       else true).
 
 Definition next_live (c : pcfg) (live : bool) (x : stmt) : bool :=
-  live && negb (never_normal x && negb (in_plan_stmt (c_p2 c) (stmt_sid x))).
+  live && negb (nn_p (c_p2 c) x && negb (in_plan_stmt (c_p2 c) (stmt_sid x))).
 
 Fixpoint block_ok (c : pcfg) (live : bool) (b : list stmt) {struct b} : bool :=
   match b with
